@@ -155,19 +155,23 @@ theorem renumber_from_one (s : St) (up : Bool) :
 
 /-! ## The handled-count reported to the server -/
 
-/-- **h = received stanzas.** Whenever, after any history `pre`, an `<a h=k/>` or a
-`<resume h=k/>` is written, `k` is the number of message / presence / iq elements received since
-the last `<enabled/>` of `pre` (nonzas, `<a/>`, `<r/>` are not counted). -/
-theorem h_equals_received_stanzas (pre : List Op) (op : Op) (k : Nat)
+/-- **h = stanzas received on that session.** Whenever, after any history `pre`, an `<a h=k/>` or a
+`<resume h=k/>` is written, `k` is the number of message / presence / iq elements received on the
+current stream-management session: since its `<enabled/>`, while stream management was on
+(nonzas, `<a/>`, `<r/>`, and anything received while it was off are not counted).
+(Before repo commit 6d4ec74 this was false: the counter also ran while stream management was off;
+the old model proved the negation with the witness `[enabledNew, sessionClosed, recv message]`
+followed by `resumeReq`, which wrote `resume 1`; the witness is kept in the harness corpus.) -/
+theorem h_equals_session_stanzas (pre : List Op) (op : Op) (k : Nat)
     (hm : Out.wire (.a k) ∈ (step (run init pre).1 op).2 ∨
           Out.wire (.resume k) ∈ (step (run init pre).1 op).2) :
-    k = stanzasSinceEnable pre := by
+    k = stanzasOnSession pre := by
   have hk : k = (run init pre).1.lastIn := by
     rcases hm with h | h
     · exact (step_wire_a _ op k h).1
     · exact (step_wire_resume _ op k h).1
-  rw [hk, run_lastIn, stanzasSinceEnable, ← countRev_zero]
-  rfl
+  rw [hk]
+  exact (run_sessionCount pre init (false, 0) rfl rfl).2
 
 /-- An `<a/>` is only ever written in answer to `<r/>` while stream management is on. -/
 theorem a_only_when_enabled (pre : List Op) (op : Op) (k : Nat)
@@ -175,48 +179,12 @@ theorem a_only_when_enabled (pre : List Op) (op : Op) (k : Nat)
     (run init pre).1.enabled = true ∧ op = .ackReq true :=
   (step_wire_a _ op k hm).2
 
-/-- Exact form of what today's code reports: stanzas received while stream management was on
-*plus* stanzas received while it was off (after the session closed / on an intermediate session
-without stream management), both since the last `<enabled/>`. -/
-theorem h_counts_on_and_off_session (pre : List Op) (op : Op) (k : Nat)
-    (hm : Out.wire (.a k) ∈ (step (run init pre).1 op).2 ∨
-          Out.wire (.resume k) ∈ (step (run init pre).1 op).2) :
-    k = stanzasOnSession pre + stanzasOffSession pre := by
-  have hk : k = (run init pre).1.lastIn := by
-    rcases hm with h | h
-    · exact (step_wire_a _ op k h).1
-    · exact (step_wire_resume _ op k h).1
-  rw [hk]
-  exact (run_sessionCount pre init (false, 0, 0) rfl rfl).2
+/-- An element received while stream management is off leaves the counter alone. -/
+theorem recv_not_counted_when_disabled (s : St) (k : RecvKind) (hd : s.enabled = false) :
+    step s (.recv k) = (s, []) := by
+  simp [step, hd]
 
-/-- **Partial** ("on that session" read strictly: only stanzas received while stream management
-was on belong to the session). Holds when no stanza was received while stream management was off
-since the last `<enabled/>`. Missing for the full statement: the counter also advances while stream
-management is off — see `C09_defect_h_counts_stanzas_received_without_sm`. -/
-theorem h_equals_session_stanzas_partial (pre : List Op) (op : Op) (k : Nat)
-    (hoff : stanzasOffSession pre = 0)
-    (hm : Out.wire (.a k) ∈ (step (run init pre).1 op).2 ∨
-          Out.wire (.resume k) ∈ (step (run init pre).1 op).2) :
-    k = stanzasOnSession pre := by
-  have := h_counts_on_and_off_session pre op k hm
-  omega
-
-/-- **Defect of today's code** (strict reading of "received on that session"): the full statement
-`∀ history, every written h = stanzas received while stream management was on` is false.
-Witness: session enabled; connection lost; a message is received while stream management is off
-(on the real client: on an intermediate session the server granted without stream management);
-the next `<resume/>` claims `h = 1` although the session being resumed handled 0 stanzas. -/
-theorem C09_defect_h_counts_stanzas_received_without_sm :
-    ¬ (∀ (pre : List Op) (op : Op) (k : Nat),
-        (Out.wire (.a k) ∈ (step (run init pre).1 op).2 ∨
-         Out.wire (.resume k) ∈ (step (run init pre).1 op).2) →
-        k = stanzasOnSession pre) := by
-  intro h
-  have := h [.enabledNew true, .sessionClosed, .recv .message] (.resumeReq true) 1 (by decide)
-  revert this
-  decide
-
-/-! ## Documented behaviour of today's code (so it cannot drift silently) -/
+/-! ## Documented behaviour of the code (so it cannot drift silently) -/
 
 /-- Without stream management, or for a nonza, `send` reports at once — *sent* if the write
 succeeded, *write error* otherwise — and stores nothing: such a packet is never resent. -/
@@ -302,9 +270,11 @@ example : Out.wire (.a 2) ∈ (step (run init [.enabledNew true, .recv .message,
     .resumed 0 true, .recv .iq]).1 (.ackReq true)).2 := by decide
 example : Out.wire (.resume 1) ∈ (step (run init [.enabledNew true, .recv .presence, .recv .nonza,
     .sessionClosed]).1 (.resumeReq true)).2 := by decide
--- partial h theorem: hypothesis met with a non-zero count
-example : stanzasOffSession [.enabledNew true, .recv .message, .sessionClosed, .resumed 0 true, .recv .iq] = 0
-    ∧ stanzasOnSession [.enabledNew true, .recv .message, .sessionClosed, .resumed 0 true, .recv .iq] = 2 := by decide
+-- the former defect witness: the stanza received while stream management is off is not counted
+example : (step (run init [.enabledNew true, .sessionClosed, .recv .message]).1 (.resumeReq true)).2 =
+    [.wire (.resume 0)] := by decide
+example : stanzasOnSession [.enabledNew true, .recv .message, .sessionClosed, .recv .presence,
+    .resumed 0 true, .recv .iq] = 2 := by decide
 -- stale ack / ack beyond: hypotheses met
 example : ∀ e ∈ (run init [.enabledNew true, .send true true, .send true true, .ack 1]).1.unacked, 1 < e.1 := by decide
 example : (run init [.enabledNew true, .send true true, .send true true]).1.enabled = true ∧
